@@ -266,6 +266,9 @@ def _floor_divide_units(unit1, unit2):
     # the floored ratio of two commensurable quantities is a pure number: the
     # caller rescales the divisor to the dividend's unit first. (Operands of
     # different dimensions are handed to _divide_units by the caller.)
+    # Dividing the units refuses what true division refuses (offset scales
+    # such as degC and degF, logarithmic units).
+    unit1 / unit2
     return 1, Unit(registry=unit1.registry)
 
 
